@@ -244,7 +244,7 @@ func New(parent context.Context, network gsnet.GraphSyncNetwork,
 
 	requestQueue := taskqueue.NewTaskQueue(ctx)
 	requestManager := requestmanager.New(ctx, persistenceOptions, linkSystem, outgoingRequestHooks, incomingResponseHooks, networkErrorListeners, outgoingRequestProcessingListeners, requestQueue, network.ConnectionManager(), gsConfig.maxLinksPerOutgoingRequest, gsConfig.panicCallback)
-	requestExecutor := executor.NewExecutor(requestManager, incomingBlockHooks)
+	requestExecutor := executor.NewExecutor(requestManager, incomingBlockHooks, gsConfig.panicCallback)
 	responseAssembler := responseassembler.New(ctx, peerManager)
 	var ptqopts []peertaskqueue.Option
 	if gsConfig.maxInProgressIncomingRequestsPerPeer > 0 {
@@ -271,6 +271,7 @@ func New(parent context.Context, network gsnet.GraphSyncNetwork,
 		responseManager,
 		outgoingBlockHooks,
 		requestUpdatedHooks,
+		gsConfig.panicCallback,
 	)
 	graphSync := &GraphSync{
 		network:                            network,
